@@ -1594,6 +1594,10 @@ class IntegrityProtectedSKEDataV1(IntegrityProtectedSKEData):
         if not constant_time.bytes_eq(bytes(pt[-22:]), _expected_mdcbytes):
             raise PGPDecryptionError("Decryption failed")  # pragma: no cover
 
+        # the MDC packet belongs to this container (RFC 4880 5.14: it "MUST appear in no other place"), not to
+        # the message inside it
+        del pt[-22:]
+
         iv = bytes(pt[:alg.block_size // 8])
         del pt[:alg.block_size // 8]
 
